@@ -167,12 +167,8 @@ impl G<'_> {
                 let variants: Vec<(String, Vec<Ty>)> = (0..nv)
                     .map(|i| {
                         let np = self.rng.weighted(&[3, 4, 2, 1]);
-                        let mut payload: Vec<Ty> = (0..np).map(|_| self.gen_ty(depth - 1)).collect();
-                        if let Some(first) = payload.first_mut() {
-                            if matches!(first, Ty::Tuple(_) | Ty::Array(..)) {
-                                *first = self.prim(); // parser: first payload type must start with an identifier
-                            }
-                        }
+                        let payload: Vec<Ty> = (0..np).map(|_| self.gen_ty(depth - 1)).collect();
+                        // (the first payload type may be a tuple or an array: parser repaired, FX-C05-7)
                         // a variant without fields is sometimes declared as an empty tuple variant `V()`
                         let name = if payload.is_empty() && self.rng.chance(1, 3) { format!("V{i}()") } else { format!("V{i}") };
                         (name, payload)
@@ -675,6 +671,22 @@ fn check_type(ctx: &Ctx, rng: &mut Rng, st: &mut St) {
                 st.counts.inc(&format!("{api}: {what}: {class}"));
             }
         }
+        // ---- the canonical text followed by further tokens is no literal of the type: refused
+        for _ in 0..2 {
+            let junk = *rng.pick(&["true", "false", "0", "1u8", ")", "]", "}", ",", ";", "x", "..", "[", "(", "- 1", "as u8", "+ 1", "// c\n1", "::A", ". 0"]);
+            let bad = format!("{text} {junk}");
+            match catch(|| prg.parse_arg(0, &bad).map(|a| a.as_literal())) {
+                Err(p) => {
+                    fail(&format!("parse_arg panicked on a text with trailing tokens: {p}"), json!({"text": bad}));
+                    return;
+                }
+                Ok(Err(_)) => st.counts.inc("parse_arg(text): trailing tokens after the literal: refused"),
+                Ok(Ok(parsed)) => {
+                    fail("parse_arg accepts a text with further tokens after the literal (they are ignored silently)", json!({"text": bad, "parsed": format!("{parsed:?}").chars().take(300).collect::<String>(), "type": t.show(&d)}));
+                    return;
+                }
+            }
+        }
         // ---- canonical text with one number replaced by a number that does not fit its type: the
         //      text denotes no value of the type and must be refused (not wrapped or truncated)
         let n_ints = count_ints(&v);
@@ -713,7 +725,16 @@ fn check_type(ctx: &Ctx, rng: &mut Rng, st: &mut St) {
                     fail(&format!("parse_arg panicked on the text of a literal ({what}): {p}"), json!({"text": text_l}));
                     return;
                 }
-                Ok(Err(_)) => st.counts.inc(&format!("parse_arg(text): {what}: refused")),
+                Ok(Err(e)) => {
+                    // a literal that denotes a value of the type and that the programmatic API
+                    // accepts is a value of the type: its printed form has to parse back
+                    let accepted = den(&l, &t, &d).is_some() && matches!(catch(|| prg.literal_arg(0, l.clone()).map(|_| ())), Ok(Ok(())));
+                    if accepted {
+                        fail(&format!("the printed form of a literal that literal_arg accepts ({what}) is refused by parse_arg"), json!({"text": text_l, "literal": format!("{l:?}"), "error": format!("{e:?}").chars().take(300).collect::<String>(), "type": t.show(&d)}));
+                        return;
+                    }
+                    st.counts.inc(&format!("parse_arg(text): {what}: refused"))
+                }
                 Ok(Ok((b, parsed))) => match den(&parsed, &t, &d) {
                     None => {
                         fail(
